@@ -111,6 +111,7 @@ def job_build(ses, proto):
 
 def run(ses):
     jobs = [(job_default, ()), (job_set_claim, ()), (c17.job_ack, ())] + [(job_build, (p,)) for p in PROTOCOLS]
+    jobs += [(job_histories, (2 if ses.tier == 'quick' else 3, ('c13',), i, 8)) for i in range(8)]
     run_jobs(ses, jobs)
     ses.trusted_base = TRUSTED
     ses.assumptions = ['invariant: not acknowledged => exp is among the builder\'s claims; established by default(), preserved by set_claim / acknowledgement / build (each an obligation here), so it holds after every call sequence including repeated builds',
@@ -119,3 +120,87 @@ def run(ses):
 
 confirm = c01.confirm
 replay = c01.replay
+
+
+# ----------------------------------------------------------------------------- bounded histories from the real constructor (layout independent)
+def job_histories(ses, maxlen, which=('c13', 'c17'), shard=0, nshards=1):
+    """every call sequence over {set_claim(k_i, v_i) with SYMBOLIC keys, acknowledge, build} of at most `maxlen` calls followed by a build, started
+    from the real PasetoBuilder::default(): expectations are stated on the observable results only (build outcome, payload handed to the core),
+    so the check does not depend on how the builder represents its state"""
+    import itertools
+    w = world(); ex = upper_executor(w); proto = 'v4.local'
+    fdef = [g for g in w.fns if g.file == PB and g.method == 'default'][0]
+    fset = w.fn(PB, 'set_claim'); fack = w.fn(PB, 'set_no_expiration_danger_acknowledged')
+    vt = w.type_text(proto)
+    fbuild = [g for g in w.fns if g.file == PB and g.method == 'build' and g.impl and vt[0].split('::')[-1] in g.impl[1] and vt[1].split('::')[-1] in g.impl[1]][0]
+    Kb = Const('K', Bytes); sub = {'Version': vt[0], 'Purpose': vt[1]}
+    seqs = []
+    for n in range(0, maxlen + 1):
+        for s_ in itertools.product(('set', 'ack', 'build'), repeat=n): seqs.append(list(s_) + ['build'])
+    ex.stats['bounds']['builder histories'] = '%d sequences of at most %d calls + build, keys symbolic' % (len(seqs), maxlen)
+    seqs = [q for i, q in enumerate(seqs) if i % nshards == shard]
+    START = [None]
+    for seq in seqs:
+        if START[0] is not None:
+            s0 = START[0][0].fork(); b0 = START[0][1]; cell = s0.new_cell(b0); keycell = s0.new_cell(sym_key_value(w, proto, Kb))
+            starts = None
+        st0 = new_state([])
+        starts = None if START[0] is not None else [(s, r) for s, r in ex.run(fdef, [], st0, subst=sub) if not isinstance(r, Panic)]
+        if starts is not None and len(starts) > 1:      # paths the in-process pruning could not refute: decide them with the lemma instances
+            keep = []
+            for s, r in starts:
+                base = list(s.pc); lem = um.core_lemmas(base) + um.json_lemmas(base); lem += um.json_lemmas(base + lem)
+                if solve.check(base + lem, timeout=30, name='feasibility of a default() path')['verdict'] != 'unsat': keep.append((s, r))
+            starts = keep
+        if starts is not None:
+            if len(starts) != 1: ses.undecided.append('history: default() has %d paths' % len(starts)); return
+            START[0] = starts[0]
+            s0 = START[0][0].fork(); b0 = START[0][1]; cell = s0.new_cell(b0); keycell = s0.new_cell(sym_key_value(w, proto, Kb))
+        # frontier: (state, list of observations); observation = ('build', result, core events)
+        frontier = [(s0, [])]; keys = []; vals = []
+        for i, op in enumerate(seq):
+            nxt = []
+            if op == 'set': k = String('hk%d' % i); v = Const('hv%d' % i, JV); keys.append((i, k, v))
+            for s1, obs in frontier:
+                if op == 'set': outs = ex.run(fset, [('ref', cell, ()), ('opaque_claim', k, v)], s1, subst={'T': 'SymClaim'})
+                elif op == 'ack': outs = ex.run(fack, [('ref', cell, ())], s1, subst=sub)
+                else:
+                    ncore = len([e for e in s1.log if e[0] == 'core_build'])
+                    outs = ex.run(fbuild, [('ref', cell, ()), ('ref', keycell, ())], s1)
+                for s2, r in outs:
+                    if isinstance(r, Panic):
+                        if upper_obligation(ses, 'history %s: no panic at call %d (%s)' % (seq, i, r.msg[:40]), list(s2.pc)): ses.violation('builder call sequence %s panics' % seq, {}, {'kind': 'c13'})
+                        continue
+                    if op == 'build':
+                        core = [e for e in s2.log if e[0] == 'core_build'][ncore:]
+                        nxt.append((s2, obs + [(i, r, core)]))
+                    else: nxt.append((s2, obs))
+            frontier = nxt
+        for s2, obs in frontier:
+            for (bi, r, core) in obs:
+                sets = [(i, k, v) for i, k, v in keys if i < bi]; acks = [i for i, o in enumerate(seq) if o == 'ack' and i < bi]
+                acked = bool(acks)
+                dup = Or(*[a[1] == b[1] for a, b in itertools.combinations(sets, 2)]) if len(sets) > 1 else BoolVal(False)
+                latitude = Or(*[k == StringVal('exp') for i, k, v in sets if any(a < i for a in acks)]) if (acks and sets) else BoolVal(False)
+                is_dup_err = is_err(r) and 'DuplicateTopLevelPayloadClaim' in (r[3][0][1], r[3][0][2])
+                if 'c17' in which:
+                    if is_dup_err:
+                        named = r[3][0][3][0]
+                        goal = Not(And(Or(dup, latitude), Or(*[named == k for _, k, _ in sets]) if sets else BoolVal(False)))
+                        if upper_obligation(ses, 'history %s: a duplicate error at call %d only if a key was supplied twice (or exp after the acknowledgement), naming a supplied key' % (seq, bi), list(s2.pc) + [goal]):
+                            ses.violation('builder sequence %s: duplicate-claim error without a repeated key' % seq, {}, {'kind': 'c17_step'})
+                        if core: ses.violation('builder sequence %s: a token is produced although the build reports a duplicate' % seq, {}, {'kind': 'c17_step'})
+                    else:
+                        if upper_obligation(ses, 'history %s: build at call %d does not succeed when a key was supplied twice' % (seq, bi), list(s2.pc) + [dup], values=[k for _, k, _ in sets]):
+                            ses.violation('builder sequence %s: build succeeds although a top-level claim was supplied twice' % seq, {}, {'kind': 'c17_dup_build'})
+                if 'c13' in which and is_ok(r):
+                    if len(core) != 1: ses.violation('builder sequence %s: Ok build with %d core calls' % (seq, len(core)), {}, {'kind': 'c13'}); continue
+                    po = payload_obj(core[0][4])
+                    if po is None: ses.undecided.append('history %s: payload not an object term' % seq); continue
+                    user_exp = Or(*[k == EXP for _, k, _ in sets]) if sets else BoolVal(False)
+                    want = Select(po[0], EXP) == BoolVal(not acked)
+                    rec = upper_obligation(ses, 'history %s: the token of the build at call %d carries exp %s' % (seq, bi, 'never (acknowledged)' if acked else 'always (not acknowledged)'),
+                                           list(s2.pc) + mapdefs_lemmas(s2, [EXP]) + [Not(want)], values=[k for _, k, _ in sets])
+                    if rec: ses.violation('builder sequence %s: exp presence wrong in the built token (acknowledged=%s)' % (seq, acked), fmt_model(['k%d' % i for i, _, _ in sets], rec), {'kind': 'c13'})
+    ses.samples.append({'histories': len(seqs), 'example': seqs[min(5, len(seqs) - 1)]})
+    ses.absorb(ex)
